@@ -46,6 +46,15 @@ class ReportWriter:
         return result
 
     @staticmethod
+    def _get_suite_position(suite):
+        if suite.parent_suite:
+            siblings = suite.parent_suite.get_suites()
+            return next((idx for idx, sibling in enumerate(siblings) if sibling is suite), 0)
+        else:
+            # the position of a top-level suite is set by the runner (there is no parent to get it from)
+            return getattr(suite, "position", 0)
+
+    @staticmethod
     def _finalize_result(result, end_time):
         result.end_time = end_time
         result.status = "passed" if result.is_successful() else "failed"
@@ -81,7 +90,8 @@ class ReportWriter:
         suite_result.tags.extend(suite.tags)
         suite_result.properties.update(suite.properties)
         suite_result.links.extend(suite.links)
-        suite_result.rank = suite.rank
+        # suites sharing the same rank (the suites made from directories without module do) are ordered as they are declared
+        suite_result.rank = (suite.rank, self._get_suite_position(suite))
         if suite.parent_suite:
             parent_suite_result = self._get_suite_result(suite.parent_suite)
             parent_suite_result.add_suite(suite_result)
